@@ -684,7 +684,9 @@ func (c *FnCtx) readField(st *State, ptr string, structT types.Type, f *types.Va
 	if c.E.addrTaken[f.Origin()] {
 		// a field whose address is taken somewhere (&u.closed) lives in the flat memory of its
 		// type at its interior address, so that *(&p.f) and p.f are the same cell
-		return c.readMem(st, c.interiorAddr(ptr, structT, f), f.Type())
+		// (a struct-typed field is read the way a dereference of a pointer to it reads it:
+		// field by field for ordinary structs)
+		return c.loadFrom(&Env{st: st}, c.interiorAddr(ptr, structT, f), f.Type())
 	}
 	key := c.fieldKey(structT, f.Name())
 	arr := c.heapGet(st, key, "(Array Int "+c.sortOf(f.Type())+")", f.Type())
@@ -730,7 +732,7 @@ func (c *FnCtx) assumeInv(st *State, term string, t types.Type) {
 
 func (c *FnCtx) writeField(st *State, ptr string, structT types.Type, f *types.Var, v string) {
 	if c.E.addrTaken[f.Origin()] {
-		c.writeMem(st, c.interiorAddr(ptr, structT, f), f.Type(), v)
+		c.storeTo(&Env{st: st}, c.interiorAddr(ptr, structT, f), f.Type(), v)
 		return
 	}
 	key := c.fieldKey(structT, f.Name())
